@@ -8,7 +8,11 @@ delay is keyed (simkit.chaosnet.KeyedLatency).  Scenario classes (DESIGN.md §5 
 
   healthy        every message delivered, one-way delay <= 5 % of the probe
                  interval, seeded probe orders, staggered starts          -> accuracy
-  failure        same network, one member crashed for good at a generated
+  healthy-moderate  every message delivered, one-way delay <= 30 % of the probe
+                 interval (below the 0.5-interval ack timeout and well inside one
+                 round, but the ping+ack round trip may exceed the ack window: suspect /
+                 late-ack / refute paths), members started a fraction of a round apart -> accuracy
+  failure        same network (5 % bound), one member crashed for good at a generated
                  instant (anywhere: t=0, before first contact, much later) -> completeness
   flap           one member down for a long window, then restarted (its
                  protocol is started again)                               -> DEAD never reverts
@@ -44,8 +48,8 @@ BATCH = {"quick": 20, "thorough": 100}
 SELFTEST_RUNS = 8
 RULE = (
     "each case is a generated cluster of 3-9 real MembershipProtocol nodes (probe interval, suspicion timeout, "
-    "indirect count, phi threshold, per-link keyed delays <= 5% of the probe interval, staggered start instants all "
-    "generated) in one of the classes healthy / failure / flap, or a generated heartbeat history "
+    "indirect count, phi threshold, per-link keyed delays <= 5% of the probe interval, start instants a fraction of a round to a few rounds apart, all "
+    "generated) in one of the classes healthy / healthy-moderate (delays <= 30%) / failure / flap, or a generated heartbeat history "
     "for a lone PhiAccrualDetector (class phi); non-trivial = every live node completed >= 2 full probe cycles "
     "(cluster classes; for failure classes additionally the crash fired and the detection deadline lay inside the "
     "horizon) or >= 3 heartbeats and >= 20 grid points (phi); distinct = distinct delivery digests (cluster) / "
@@ -62,6 +66,10 @@ STUBS = ["simkit.chaosnet.KeyedLatency (LatencyDistribution seam)", "simkit.chao
 ASSUMPTIONS = [
     "'live member' = a node that is not inside a crash window; accuracy (never DEAD) is judged for live members in the "
     "healthy, failure and failure-early classes (the network is healthy in all three); it is not judged in the flap class",
+    "'a bound well below the probe interval' is read as one-way delay <= 5 % of the interval in the classes healthy / "
+    "failure / flap and <= 30 % in healthy-moderate (still below the 0.5-interval ack timeout, round trip 0.6 < one "
+    "round); /repo HEAD is clean of false deaths in healthy-moderate over 3000 sampled runs at 30 % and over 3000 "
+    "more at 40 %, so 30 % is not at the edge of what the implementation tolerates; larger fractions are not claimed",
     "'stops reporting it ALIVE' is satisfied by SUSPECT as well as DEAD (weaker reading)",
     "the statement does not fix the number of probe rounds; the deadline used is derived from the documented mechanism "
     "only: last contact + I + k(threshold) * max(I/2, min_std) + 3 probe intervals, where I = (2N-3) probe intervals + "
@@ -71,7 +79,7 @@ ASSUMPTIONS = [
     "phi monotonicity is judged with a relative tolerance of 1e-9 (libm erfc/log10 are not guaranteed monotone to the ulp)",
     "a restarted member (flap class) starts its protocol again with start(), as a restarted process would",
 ]
-EXPECTED_PROBES = ["probe.live_member_suspected", "probe.suspect_revived", "probe.indirect_path_taken",
+EXPECTED_PROBES = ["probe.late_ack_revived_member", "probe.live_member_suspected", "probe.suspect_revived", "probe.indirect_path_taken",
                    "probe.victim_declared_dead", "probe.dead_learned_by_gossip", "probe.victim_only_suspect_at_deadline",
                    "probe.never_heard_pair", "probe.dead_member_spoke_again", "probe.phi_reached_inf",
                    "probe.same_target_probed_twice_in_a_row", "probe.suspected_on_missed_ack",
@@ -350,7 +358,7 @@ def run(sc):
     pr = {"live_member_suspected": 0, "suspect_revived": 0, "victim_declared_dead": 0, "dead_learned_by_gossip": 0,
           "victim_only_suspect_at_deadline": 0, "never_heard_pair": 0, "dead_member_spoke_again": 0,
           "same_target_probed_twice_in_a_row": 0, "phi_samples": 0, "suspected_on_missed_ack": 0,
-          "never_heard_member_suspected": 0}
+          "never_heard_member_suspected": 0, "late_ack_revived_member": 0}
     last_probe = {}
     past_deadline_checked = [False]
     phi_track = {}  # observer -> (heartbeat count, last phi, last t) for the victim's detector after the crash
@@ -389,6 +397,8 @@ def run(sc):
                     pr["never_heard_member_suspected"] = 1
             if old == "S" and st == "A":
                 pr["suspect_revived"] = 1
+                if klass == "healthy-moderate" and ev.event_type == "MembershipAck":
+                    pr["late_ack_revived_member"] = 1
             if st == "D" and m == vname:
                 pr["victim_declared_dead"] = 1
                 if ev.event_type != "MembershipSuspicionTimeout":
